@@ -377,3 +377,19 @@ theorem runM_lnCreateInvoice_bind {β : Type} (a : UInt64) (f : Option Nat → P
   rw [this]
 
 end Gonuts.Model.Mint
+
+namespace Gonuts.Model.Mint
+
+theorem runM_effUpdateMeltQ_bind {β : Type} (id pre : Nat) (st : LQState) (f : DbRes Unit → PM β) (db : DB) (ln : LN) :
+    runM (eff (.updateMeltQuote id pre st) >>= f) (db, ln) =
+      if db.meltQ.any (·.id == id) then runM (f (.ok ())) ({ db with meltQ := updMeltQ db.meltQ id pre st }, ln)
+      else runM (f (.error .notUpdated)) (db, ln) := by
+  rw [runM_eff_bind]; simp only [stepDL, execDb]
+  by_cases h : (db.meltQ.any (·.id == id)) = true <;> simp [h]
+
+theorem runM_effRemovePending_bind {β : Type} (ys : List Nat) (f : DbRes Unit → PM β) (db : DB) (ln : LN) :
+    runM (eff (.removePending ys) >>= f) (db, ln) =
+      runM (f (.ok ())) ({ db with pending := db.pending.filter (fun r => !ys.contains r.y) }, ln) := by
+  rw [runM_eff_bind]; rfl
+
+end Gonuts.Model.Mint
